@@ -114,13 +114,16 @@ def ecliptical2equatorial (longitude latitude obliquity : Num) : PyRes (Num × N
   let lon := angRad longitude
   let lat := angRad latitude
   let eps := angRad obliquity
-  -- ra = atan2(sin(lon) * cos(eps) - tan(lat) * sin(eps), cos(lon))
-  let ra := patan2 (psin lon * pcos eps - ptan lat * psin eps) (pcos lon)
-  -- dec = asin(sin(lat) * cos(eps) + cos(lat) * sin(eps) * sin(lon))          (ValueError outside [-1, 1])
-  let arg := psin lat * pcos eps + pcos lat * psin eps * psin lon
-  if plt arg (-1.0) || plt 1.0 arg then .error .valueError else
+  -- x = cos(lat) * cos(lon); y = cos(lat) * sin(lon) * cos(eps) - sin(lat) * sin(eps)
+  let x := pcos lat * pcos lon
+  let y := pcos lat * psin lon * pcos eps - psin lat * psin eps
+  -- z = sin(lat) * cos(eps) + cos(lat) * sin(eps) * sin(lon)
+  let z := psin lat * pcos eps + pcos lat * psin eps * psin lon
+  -- ra = atan2(y, x); dec = atan2(z, sqrt(x * x + y * y))        (cannot raise)
+  let ra := patan2 y x
+  let dec := patan2 z (psqrt (x * x + y * y))
   -- ra = Angle(ra, radians=True); ra = ra.to_positive(); dec = Angle(dec, radians=True)
-  .ok (angToPositive (angOfRad ra), angOfRad (pasin arg))
+  .ok (angToPositive (angOfRad ra), angOfRad dec)
 
 /-! ### The seven planets: `<Planet>.geocentric_position(epoch)` (e.g. Venus.py:1949) -/
 
